@@ -66,7 +66,25 @@ func main() {
 	seed := flag.Int64("seed", 1, "")
 	scratch := flag.String("scratch", os.TempDir(), "")
 	shard := flag.String("shard", "0/1", "")
+	timers := flag.Int("timers", 0, "run this many timer sessions (no schedules) and write their results")
 	flag.Parse()
+	if *timers > 0 {
+		out, err := os.Create(*outF)
+		if err != nil {
+			fmt.Fprintln(os.Stderr, err)
+			os.Exit(2)
+		}
+		defer out.Close()
+		ch := make(chan result, *timers)
+		for i := 0; i < *timers; i++ {
+			go func(i int) { ch <- timerSession(*scratch, i) }(i)
+		}
+		for i := 0; i < *timers; i++ {
+			b, _ := json.Marshal(<-ch)
+			out.Write(append(b, '\n'))
+		}
+		return
+	}
 	var si, sn int
 	fmt.Sscanf(*shard, "%d/%d", &si, &sn)
 	f, err := os.Open(*schedF)
